@@ -47,7 +47,7 @@ ASSUMPTIONS = [
 KINDS = ("supervised", "semi", "knn", "unsup")
 
 
-EXPECTED_PROBES = ['non_contiguous_argument', 'persistent_model_reused', 'persistent_model_predicts', 'caller_supplied_distance_matrix', 'result_compared_with_fresh_interpreter', 'call_raises_consistently', 'caller_rewrote_own_buffer_in_place', 'decorated_metric_on_exact_zero', 'model_fitted_on_buffer_with_history', 'same_array_as_both_arguments', 'tiny_magnitudes_present']
+EXPECTED_PROBES = ['model_call_on_overflowing_magnitudes', 'non_contiguous_argument', 'persistent_model_reused', 'persistent_model_predicts', 'caller_supplied_distance_matrix', 'result_compared_with_fresh_interpreter', 'call_raises_consistently', 'caller_rewrote_own_buffer_in_place', 'decorated_metric_on_exact_zero', 'model_fitted_on_buffer_with_history', 'same_array_as_both_arguments', 'tiny_magnitudes_present']
 
 SLOW_ARMS = ("fresh",)
 
@@ -78,6 +78,11 @@ def gen_case(rng, arm, tier, k=0):
             # whose predictions stay within the labels' range
             Ym = [y + 1 for y in Ym]
         Xm = gen_matrix(rng, n, d, style)
+        if rng.random() < 0.12:
+            # finite values so large that squares overflow (1e200): still the caller's data
+            for i in range(n):
+                if rng.random() < 0.3:
+                    Xm[i][rng.randrange(d)] = rng.choice((1e200, -1e200, 1.5e308, 3e155))
         if mats and rng.random() < 0.3:
             # a matrix with a few isolated rows far away from everything else
             for i in range(n):
@@ -517,6 +522,8 @@ def run_case(case):
                     shared += 1
                     states.add(h64((last_touch[name], case_style(case, name), len(t) == 1 and op[0] == "dist")))
                 last_touch[name] = lab
+            if op[0] in ("fit", "fitpredict", "getdist", "mfit") and any(np.abs(mm).max() > 1e150 for mm in live.mats):
+                bump(out.probes, "model_call_on_overflowing_magnitudes")
             if op[0] == "dist":
                 x, y = live.get(op[3]), live.get(op[4])
                 if not (x.flags.c_contiguous and y.flags.c_contiguous):
